@@ -195,11 +195,18 @@ theorem noArgs_checks (σ : FnM.St) (h : (σ.heap.all fun o => !isArgs o.val) = 
     simp [isArgs] at this
   exact ⟨fun a o q oq _ _ hoq => key q oq hoq, fun a o ipn st ho hv => absurd hv (key a o ho ipn st)⟩
 
-theorem errWF_of_check (σ : FnM.St) (h : (σ.heap.all fun o => !isErr o.val) = true) : ErrWF σ := by
+theorem errWF_of_check (σ : FnM.St)
+    (h : ((List.range σ.heap.length).all fun a => match σ.obj? a with
+      | some o => (match o.val with | .error n => decide (getP σ a "name" = .str n) | _ => true)
+      | none => true) = true) : ErrWF σ := by
   intro a o n ho hv
-  have := List.all_eq_true.1 h o (obj_mem σ a o ho)
-  rw [hv] at this
-  simp [isErr] at this
+  have ha : a < σ.heap.length := by
+    simp only [FnM.St.obj?] at ho
+    exact (List.getElem?_eq_some_iff.1 ho).1
+  have := List.all_eq_true.1 h a (List.mem_range.2 ha)
+  rw [ho] at this
+  simp only [hv, decide_eq_true_eq] at this
+  exact this
 
 theorem writableWF_of_check (σ : FnM.St)
     (h : (σ.heap.all fun o => o.props.all fun kp =>
@@ -332,7 +339,7 @@ example : (match FnM.instantiateNode 5 3 1 ["a", "a"] ["v", "a"] dsE [.num 7] σ
 example : (match Fn.instantiate 5 1 { env := 1, venv := 1, this := .ref Fn.gObj } ["a", "a"] [.num 7] (.ref 3) dsE ["v", "a"]
       { Fn.initSt with envs := Fn.initSt.envs ++ [{ vars := [], outer := some 0 }] } with
     | .ok _ s => (s.envs[1]?.map (·.vars)).getD []
-    | _ => []) = [("a", .undef), ("g", .ref 6), ("arguments", .ref 8), ("v", .undef)] := by decide
+    | _ => []) = [("a", .undef), ("g", .ref 11), ("arguments", .ref 13), ("v", .undef)] := by decide
 
 /-- a call `f()` inside `with (σ1's object 11)`: this = that object; for a callee in the function stash: the global object -/
 example : modelThis (refOf σ1 "f" (Fn.envResolve (absSt σ1) 4 2 "f")) = .ref 11 := by decide
